@@ -36,7 +36,7 @@ RULE_GEN = ("; S-GEN: every function of the generated model lean/BBGen/Gen.lean 
             "the real call), results compared as typed literals (type AND exact value)")
 
 PROPS: dict = {
-    "C01": {"suites": [props_tree.c01], "rule": RULE_TREE},
+    "C01": {"suites": [props_tree.c01, gen.suite_gen({"subcluster"})], "rule": RULE_TREE + RULE_GEN},
     "C02": {"suites": [props_tree.c02, gen.suite_gen({"min_safe_uint", "centroid", "subcluster"})], "rule": RULE_TREE + RULE_GEN},
     "C03": {"suites": [props_tree.c03, gen.suite_gen({"merges"})], "rule": RULE_TREE + RULE_GEN},
     "C04": {"suites": [c04.suite_repr, c04.suite_pages, gen.suite_gen({"pages"})],
